@@ -20,7 +20,7 @@ try:
     files = re.findall(r"^\+\+\+ b/(\S+)", open(patch).read(), re.M)
     pkgs = sorted({"./" + os.path.dirname(f) + "/..." for f in files})
     demos = [f for f in os.listdir(sdir) if f not in ("patch.diff", "meta.json")]
-    demo_cmd = meta.get("demo_cmd", "")
+    demo_cmd = re.sub(r"\s{2,}\(.*$", "", meta.get("demo_cmd", ""))   # some agents append a remark in parentheses
     def run_demo():
         # the demo command is written relative to the worktree root with the seed under seeds/<k>/
         k = os.path.basename(os.path.normpath(sdir))
